@@ -64,6 +64,8 @@ ASSUMPTIONS = [
     "float32 (it raises under a float64 default dtype), tolerance 2e-5 relative there",
     "completeness trials re-draw parameters from the SAME state (fresh initialisation + the same training history), "
     "never by adding noise: a column that cannot influence a freshly initialised model is reported",
+    "no rejection is demanded anywhere in C14 (the statement has no such clause): what the constructors do with "
+    "num_layers <= 0 or ExcelFormer on categorical columns is recorded as an observation only",
     "only stypes a model uses are generated (numerical + categorical; ExcelFormer numerical only): the quantifier "
     "says '>= 2 columns per USED stype'; TabTransformer silently ignores columns of any other stype",
     "the Coq side runs with each case's own hyper-parameters (columns per stype, channels, layers, heads, "
@@ -72,6 +74,11 @@ ASSUMPTIONS = [
     "decoder input, Trompt's per-layer prompts, ExcelFormer's decoder input) at position granularity",
 ]
 
+# CLAUSES -- C14's statement contains NO rejection clause: the oracle demands a raise nowhere.  raises:<model>:build /
+#   raises:<model>:forward flag a raise on a VALID configuration and batch ("for any batch of a materialized frame ...
+#   the output is finite and has shape [batch, out_channels]").  Constructor behaviour on num_layers <= 0 etc. is recorded
+#   as an observation in the evidence (extra.constructor_observations), never demanded.
+#
 # ERROR_PATHS -- every raise / assert / special-case branch / dtype cast / buffer / hand-written numerically "safe"
 # formula in the anchored code, the generator kind that reaches it, and the oracle key that notices a change.
 #
@@ -79,9 +86,9 @@ ASSUMPTIONS = [
 #     TabNet / ExcelFormer: their own defaults with NA strategies) ........... num_enc = None cases next to explicit
 #                                                                             dictionaries (sanity: both drawn)
 #  ft_transformer / tab_transformer / trompt / tabnet / excelformer: `if num_layers <= 0: raise ValueError`
-#                                                                          ... extra(): constructor probes, key
-#                                                                             accepts-invalid-config:<model>
-#  excelformer.py `col_names_dict.keys() != {numerical}: raise`, `assert mixup in [...]`  extra(): constructor probes
+#                                                                          ... extra(): constructor OBSERVATIONS
+#                                                                             (C14 has no rejection clause)
+#  excelformer.py `col_names_dict.keys() != {numerical}: raise`, `assert mixup in [...]`  extra(): observation only
 #  excelformer.py feature_mixup (asserts, Beta sampling, randperm) ........... training-time path (mixup_encoded=True),
 #                                                                             outside C14 (property C19)
 #  mlp.py / resnet.py `normalization` three-way branch, `in_channels != out_channels` shortcut branch
@@ -756,35 +763,26 @@ def selftest_discrimination(rng):
 
 
 def constructor_probes(rng):
-    """Configurations the constructors must reject (the `raise ValueError` / `assert` of the models' __init__)."""
-    fails, n = [], 0
+    """What the models' constructors do with num_layers <= 0 and ExcelFormer with categorical columns.  OBSERVATION
+    ONLY: C14 has no rejection clause, so nothing is demanded here (recorded in the evidence)."""
+    seen = {}
     with P.f64(1):
         data = P.gen_data(rng, 3, 2, 2, "regression", 0.0)
         ds = P.make_dataset(data)
         dsn = P.make_dataset(dict(data, cat=[]))
         for m in ("FTTransformer", "TabTransformer", "Trompt", "TabNet", "ExcelFormer"):
             for L in (0, -1):
-                n += 1
                 try:
-                    opts = {"layers": L, "channels": 8}
-                    if m == "TabNet":
-                        from torch_frame import nn as tnn
-                        tnn.TabNet(out_channels=1, num_layers=L, split_feat_channels=8, split_attn_channels=8, gamma=1.2,
-                                   col_stats=ds.col_stats, col_names_dict=ds.tensor_frame.col_names_dict)
-                    else:
-                        P.build_model(m, opts, dsn if m == "ExcelFormer" else ds, 1)
-                    fails.append(dict(key=f"accepts-invalid-config:{m}", case=None,
-                                      what=f"{m} was constructed with num_layers = {L}"))
-                except Exception:
-                    pass
-        n += 1
+                    P.build_model(m, {"layers": L, "channels": 8}, dsn if m == "ExcelFormer" else ds, 1)
+                    seen[f"{m}(num_layers={L})"] = "constructed"
+                except Exception as ex:
+                    seen[f"{m}(num_layers={L})"] = "raised " + C.exc_name(ex)
         try:
             P.build_model("ExcelFormer", {"channels": 8}, ds, 1)
-            fails.append(dict(key="accepts-invalid-config:ExcelFormer", case=None,
-                              what="ExcelFormer was constructed on a frame with categorical columns"))
-        except Exception:
-            pass
-    return fails, n
+            seen["ExcelFormer(categorical columns)"] = "constructed"
+        except Exception as ex:
+            seen["ExcelFormer(categorical columns)"] = "raised " + C.exc_name(ex)
+    return [], seen
 
 
 def extra(tier, rng):
@@ -792,7 +790,7 @@ def extra(tier, rng):
     f1, n = validate_torch_blocks(rng)
     f1 = f0 + f1
     f2, info = selftest_discrimination(rng)
-    info = dict(info, torch_block_rowwise_checks=n, constructor_probes=n0)
+    info = dict(info, torch_block_rowwise_checks=n, constructor_observations=n0)
     return f1 + f2, info
 
 
